@@ -226,6 +226,171 @@ theorem expansion_refines (cx : Btclib.Ctx) (sc : Bytes) (stack alt : List Bytes
           simp only [coreRes, Except.map, bind, Except.bind, pure, Except.pure, throw, throwThe, MonadExceptOf.throw]
           split <;> rfl
 
+/-! ### locktime op codes, PICK, ROLL (against the named cases of the switch) -/
+
+theorem num_eq5 (cx : Btclib.Ctx) (sc : Bytes) (v : Bytes) :
+    Btclib.num cx v Gen.Script.MAX_LOCK_TIME_NUM_SIZE = (Core.num (coreCx cx sc) v Core.LOCKTIME_MAX_NUM_SIZE).toOption :=
+  num_eq cx sc v 5 (by decide)
+
+def okOpt {α} : Core.R α → Option α
+  | .ok a => some a
+  | .error _ => none
+
+
+theorem cltv_core (cx : Btclib.Ctx) (sc : Bytes) (stack : List Bytes) :
+    (Btclib.cltv cx stack).map (fun _ => stack) = okOpt (Core.execCltv (coreCx cx sc) stack) := by
+  unfold Btclib.cltv Core.execCltv
+  have hfl : (coreCx cx sc).flags = cx.flags := rfl
+  rw [hfl]
+  by_cases hf : Core.has cx.flags Core.FLAG_CHECKLOCKTIMEVERIFY = true
+  · simp only [hf, Bool.not_true, Bool.false_eq_true, if_false]
+    rcases stack with _ | ⟨top, r⟩
+    · rfl
+    · dsimp only
+      rw [num_eq5 cx sc]
+      cases hn : Core.num (coreCx cx sc) top Core.LOCKTIME_MAX_NUM_SIZE with
+      | error e => rfl
+      | ok n =>
+        have ht : (coreCx cx sc).txLockTime = cx.txLockTime := rfl
+        have hq : (coreCx cx sc).txSequence = cx.txSequence := rfl
+        by_cases h1 : n < 0
+        · simp [h1, Except.toOption, okOpt, bind, Except.bind, throw, throwThe, MonadExceptOf.throw]
+        · have hcl : Core.checkLockTime (coreCx cx sc) n =
+              (if !(((cx.txLockTime : Int) < 500000000 && n < 500000000) || ((cx.txLockTime : Int) ≥ 500000000 && n ≥ 500000000)) then false
+               else if n > (cx.txLockTime : Int) then false else if cx.txSequence = 0xFFFFFFFF then false else true) := rfl
+          by_cases h2 : (cx.txLockTime : Int) ≥ 500000000 <;> by_cases h3 : n ≥ 500000000 <;>
+            by_cases h4 : n > (cx.txLockTime : Int) <;> by_cases h5 : cx.txSequence = 0xFFFFFFFF <;>
+            simp [h1, h2, h3, h4, h5, hcl, okOpt, Except.toOption, bind, Except.bind, pure, Except.pure, throw, throwThe,
+              MonadExceptOf.throw] <;> omega
+  · have hf' : Core.has cx.flags Core.FLAG_CHECKLOCKTIMEVERIFY = false := by simpa using hf
+    simp [hf', okOpt]
+
+theorem csv_core (cx : Btclib.Ctx) (sc : Bytes) (stack : List Bytes) :
+    (Btclib.csv cx stack).map (fun _ => stack) = okOpt (Core.execCsv (coreCx cx sc) stack) := by
+  unfold Btclib.csv Core.execCsv
+  have hfl : (coreCx cx sc).flags = cx.flags := rfl
+  rw [hfl]
+  by_cases hf : Core.has cx.flags Core.FLAG_CHECKSEQUENCEVERIFY = true
+  · simp only [hf, Bool.not_true, Bool.false_eq_true, if_false]
+    rcases stack with _ | ⟨top, r⟩
+    · rfl
+    · dsimp only
+      rw [num_eq5 cx sc]
+      cases hn : Core.num (coreCx cx sc) top Core.LOCKTIME_MAX_NUM_SIZE with
+      | error e => rfl
+      | ok n =>
+        by_cases h1 : n < 0
+        · simp [h1, Except.toOption, okOpt, bind, Except.bind, throw, throwThe, MonadExceptOf.throw]
+        · generalize hsq : n.toNat = sq
+          have hcs : Core.checkSequence (coreCx cx sc) n =
+              (if cx.txVersion < 2 then false
+               else if (cx.txSequence / 2147483648) % 2 = 1 then false
+               else
+                 if !((((cx.txSequence / 4194304 % 2) * 4194304 + cx.txSequence % 65536) < 4194304 && ((sq / 4194304 % 2) * 4194304 + sq % 65536) < 4194304)
+                      || (((cx.txSequence / 4194304 % 2) * 4194304 + cx.txSequence % 65536) ≥ 4194304 && ((sq / 4194304 % 2) * 4194304 + sq % 65536) ≥ 4194304)) then false
+                 else if ((sq / 4194304 % 2) * 4194304 + sq % 65536) > ((cx.txSequence / 4194304 % 2) * 4194304 + cx.txSequence % 65536) then false
+                 else true) := by rw [← hsq]; rfl
+          have hb : ∀ x k, Btclib.bit x k = x / 2 ^ k % 2 * 2 ^ k := fun _ _ => rfl
+          have m5 := Nat.mod_lt sq (by decide : 0 < 65536)
+          have m6 := Nat.mod_lt cx.txSequence (by decide : 0 < 65536)
+          rcases Nat.mod_two_eq_zero_or_one (sq / 2147483648) with e1 | e1 <;>
+          rcases Nat.mod_two_eq_zero_or_one (cx.txSequence / 2147483648) with e2 | e2 <;>
+          rcases Nat.mod_two_eq_zero_or_one (sq / 4194304) with e3 | e3 <;>
+          rcases Nat.mod_two_eq_zero_or_one (cx.txSequence / 4194304) with e4 | e4 <;>
+          by_cases h3 : cx.txVersion < 2 <;> by_cases h6 : sq % 65536 > cx.txSequence % 65536 <;>
+            simp [h1, h3, h6, e1, e2, e3, e4, hcs, hsq, hb, okOpt, Except.toOption, bind, Except.bind, pure, Except.pure,
+              throw, throwThe, MonadExceptOf.throw] <;> (try omega) <;>
+            (first | (rw [if_pos (by omega)]) | (rw [if_neg (by omega)]))
+  · have hf' : Core.has cx.flags Core.FLAG_CHECKSEQUENCEVERIFY = false := by simpa using hf
+    simp [hf', okOpt]
+
+theorem eraseAt_zero (r : List Bytes) (h : r ≠ []) : r.getD 0 [] :: Core.eraseAt r 0 = r := by
+  cases r with
+  | nil => exact absurd rfl h
+  | cons x xs => rfl
+
+theorem pick_roll_core (cx : Btclib.Ctx) (sc : Bytes) (stack alt : List Bytes) :
+    btRes (Btclib.operation cx 0x79 stack alt) = (okOpt (Core.execPickRoll (coreCx cx sc) stack false)).map (·, alt) ∧
+    btRes (Btclib.operation cx 0x7a stack alt) = (okOpt (Core.execPickRoll (coreCx cx sc) stack true)).map (·, alt) := by
+  rcases stack with _ | ⟨top, _ | ⟨below, r0⟩⟩
+  · exact ⟨rfl, rfl⟩
+  · -- one element: Core refuses before reading it; btclib reads it and then finds nothing to pick
+    constructor
+    · show btRes (do
+          let n ← Btclib.num cx top
+          if n < 0 then none else match ([] : List Bytes)[n.toNat]? with | some v => pure (.done (v :: []) alt) | none => none) = none
+      cases Btclib.num cx top with
+      | none => rfl
+      | some n => show btRes (if n < 0 then none else none) = none; split <;> rfl
+    · show btRes (do
+          let n ← Btclib.num cx top
+          if n < 0 then none
+          else if (([] : List Bytes).length : Int) < n + 1 then none
+          else if n == 0 then pure (.done [] alt)
+          else pure (.done (([] : List Bytes).getD n.toNat [] :: Core.eraseAt [] n.toNat) alt)) = none
+      cases Btclib.num cx top with
+      | none => rfl
+      | some n =>
+        show btRes (if n < 0 then none else if ((0 : Nat) : Int) < n + 1 then none else _) = none
+        by_cases h1 : n < 0
+        · simp [h1, btRes]
+        · have : (0 : Int) < n + 1 := by omega
+          simp [h1, this, btRes]
+  · have hlen : ((below :: r0).length : Int) = r0.length + 1 := by simp
+    constructor
+    · show btRes (do
+          let n ← Btclib.num cx top
+          if n < 0 then none else match (below :: r0)[n.toNat]? with | some v => pure (.done (v :: below :: r0) alt) | none => none) = _
+      unfold Core.execPickRoll
+      dsimp only
+      rw [num_eq4 cx sc]
+      cases hn : Core.num (coreCx cx sc) top Core.DEFAULT_MAX_NUM_SIZE with
+      | error e => rfl
+      | ok n =>
+        by_cases h1 : n < 0
+        · simp [h1, Except.toOption, okOpt, btRes, bind, Except.bind, Option.bind, throw, throwThe, MonadExceptOf.throw]
+        · by_cases h2 : n ≥ ((below :: r0).length : Nat)
+          · have hnone : (below :: r0)[n.toNat]? = none := by
+              apply List.getElem?_eq_none; simp only [List.length_cons] at h2 ⊢; omega
+            have g1 : (r0.length : Int) + 1 ≤ n := by rw [hlen] at h2; omega
+            simp [h1, h2, g1, hnone, Except.toOption, okOpt, btRes, bind, Except.bind, Option.bind, throw, throwThe,
+              MonadExceptOf.throw]
+          · have hlt : n.toNat < (below :: r0).length := by simp only [List.length_cons] at h2 ⊢; omega
+            have hsome : (below :: r0)[n.toNat]? = some ((below :: r0).getD n.toNat []) := by
+              rw [List.getD_eq_getElem?_getD, List.getElem?_eq_getElem hlt]; rfl
+            simp only [Except.toOption, Option.bind, h1, if_false, hsome, bind, Except.bind, h2, or_self, pure,
+              Except.pure, okOpt, btRes, Option.map, Bool.false_eq_true]
+    · show btRes (do
+          let n ← Btclib.num cx top
+          if n < 0 then none
+          else if ((below :: r0).length : Int) < n + 1 then none
+          else if n == 0 then pure (.done (below :: r0) alt)
+          else pure (.done ((below :: r0).getD n.toNat [] :: Core.eraseAt (below :: r0) n.toNat) alt)) = _
+      unfold Core.execPickRoll
+      dsimp only
+      rw [num_eq4 cx sc]
+      cases hn : Core.num (coreCx cx sc) top Core.DEFAULT_MAX_NUM_SIZE with
+      | error e => rfl
+      | ok n =>
+        by_cases h1 : n < 0
+        · simp [h1, Except.toOption, okOpt, btRes, bind, Except.bind, Option.bind, throw, throwThe, MonadExceptOf.throw]
+        · by_cases h2 : n ≥ ((below :: r0).length : Nat)
+          · have h2' : ((below :: r0).length : Int) < n + 1 := by omega
+            have g1 : (r0.length : Int) + 1 ≤ n := by rw [hlen] at h2; omega
+            have g2 : (r0.length : Int) < n := by omega
+            simp [h1, h2, h2', g1, g2, Except.toOption, okOpt, btRes, bind, Except.bind, Option.bind, throw, throwThe,
+              MonadExceptOf.throw]
+          · have h2' : ¬ ((below :: r0).length : Int) < n + 1 := by omega
+            have g1 : ¬ ((r0.length : Int) + 1 ≤ n) := by rw [hlen] at h2; omega
+            have g2 : ¬ ((r0.length : Int) < n) := by omega
+            by_cases h0 : n = 0
+            · subst h0
+              have g3 : ¬ ((r0.length : Int) < 0) := by omega
+              have g4 : ¬ ((r0.length : Int) + 1 ≤ 0) := by omega
+              simp [h2', g3, g4, Except.toOption, okOpt, btRes, bind, Except.bind, Option.bind, pure, Except.pure, Core.eraseAt]
+            · have hb : (n == 0) = false := by simpa using h0
+              simp [h1, h2, h2', g1, g2, hb, h0, Except.toOption, okOpt, btRes, bind, Except.bind, Option.bind, pure, Except.pure]
+
 /-! ### the expansion at loop level -/
 section
 open Btclib
